@@ -119,7 +119,8 @@ class Execution(object):
                 sorted(txn.writes), txn.outcome))
         self.obs[i].append(o)
         pg, cg, ci = self.begin_gens[i] or ({}, {}, {})
-        self.txn_info[i].append({'pgens': pg, 'cgens': cg, 'cids': ci,
+        self.nseq = getattr(self, 'nseq', 0) + 1
+        self.txn_info[i].append({'seq': self.nseq, 'pgens': pg, 'cgens': cg, 'cids': ci,
                                  'writes': sorted(txn.writes), 'reads': sorted(txn.reads),
                                  'outcome': txn.outcome, 'nested': txn.nested,
                                  'nstmts': len(txn.stmts)})
@@ -431,13 +432,20 @@ class Judge(object):
             return self.serial_cache['answers']
         n = len(self.requests)
         ans = {i: set() for i in range(n)}
+        bodies = {i: set() for i in range(n)}
         for order in itertools.permutations(range(n)):
             self.eng.h.write_image(self.image)
             for i in order:
                 resp, _ = self.eng.call(self.requests[i])
                 ans[i].add((resp.status, resp.err_code()))
+                bodies[i].add(canon_body(resp))
         self.serial_cache['answers'] = ans
+        self.serial_cache['bodies'] = bodies
         return ans
+
+    def serial_bodies(self):
+        self.serial_answers()
+        return self.serial_cache['bodies']
 
     def __call__(self, ex, dump):
         from vp.snapshot import diff, inv_consumer, inv_ref
@@ -530,6 +538,59 @@ class Judge(object):
                 'placement.concurrent_update nor an answer of any serial order (%s)' % (
                     tags[i], statuses[i], code, sched, sorted(self.serial_answers()[i],
                                                               key=repr)))
+        if self.prop in ('C03', 'C13'):
+            # a read overlapped by writes must answer as for ONE database state: its body (lists
+            # compared as multisets) is the body it gets in some serial order of the same requests
+            for i in range(n):
+                if reqs_[i]['method'] != 'GET' or statuses[i] >= 500:
+                    continue
+                b = canon_body(ex.resps[i])
+                if b not in self.serial_bodies()[i]:
+                    add('read-consistency:%s|vs|%s' % (
+                        tags[i], '+'.join(t for j, t in enumerate(tags) if j != i)),
+                        '%s, overlapped by %s under schedule %s, answered %s %s, which it does not '
+                        'answer in any serial order of these requests (%d distinct serial '
+                        'answers)' % (tags[i], [t for j, t in enumerate(tags) if j != i], sched,
+                                      statuses[i], ex.resps[i].raw[:300],
+                                      len(self.serial_bodies()[i])))
+        if self.prop == 'C10':
+            # generations never move backwards, whatever the interleaving: the generation of a
+            # provider / consumer record (same record id) seen at the begin of successive
+            # transactions, in schedule order, and finally in the stored rows; and a successful
+            # write reports a generation that the record has reached
+            seen = []
+            for i in range(n):
+                for t in ex.txn_info[i]:
+                    seen.append((t.get('seq', 0), t['pgens'], t['cgens'], t['cids']))
+            seen.sort(key=lambda x: x[0])
+            seen.append((None, {u: p['gen'] for u, p in dump.providers.items()},
+                         {u: c['gen'] for u, c in dump.consumers.items()}, None))
+            hi_p, hi_c = {}, {}
+            for seq, pg, cg, ci in seen:
+                for u, g in pg.items():
+                    if u in hi_p and g < hi_p[u]:
+                        add('c10-decrease:provider:%s' % '+'.join(sorted(tags)),
+                            'generation of provider %s went from %s back to %s under schedule '
+                            '%s (%s)' % (u, hi_p[u], g, sched, statuses))
+                    hi_p[u] = max(g, hi_p.get(u, g))
+                if ci is not None:
+                    for u, g in cg.items():
+                        k = (u, ci.get(u))
+                        if k in hi_c and g < hi_c[k]:
+                            add('c10-decrease:consumer:%s' % '+'.join(sorted(tags)),
+                                'generation of consumer %s went from %s back to %s under '
+                                'schedule %s (%s)' % (u, hi_c[k], g, sched, statuses))
+                        hi_c[k] = max(g, hi_c.get(k, g))
+            for i, r in enumerate(ex.resps):
+                j = r.json if r.status < 300 else None
+                if isinstance(j, dict) and 'resource_provider_generation' in j:
+                    u = rq.target_provider(reqs_[i])
+                    if u in dump.providers and dump.providers[u]['gen'] < j[
+                            'resource_provider_generation']:
+                        add('c10-reported:%s' % tags[i],
+                            '%s reported generation %s for %s, the stored generation ends at %s '
+                            '(schedule %s)' % (tags[i], j['resource_provider_generation'], u,
+                                               dump.providers[u]['gen'], sched))
         # generation rules
         if self.prop in ('C05', 'C07'):
             same = {}
@@ -582,6 +643,24 @@ class Judge(object):
                                 'the begin of its committing transaction it was %r (schedule %s)'
                                 % (tags[i], g, c, at, sched))
                         same.setdefault((c, g), []).append(i)
+
+
+def canon_body(resp):
+    """(status, canonical JSON with every list sorted) -- order-insensitive body digest"""
+    import json
+
+    def norm(x):
+        if isinstance(x, dict):
+            return {k: norm(v) for k, v in sorted(x.items())}
+        if isinstance(x, list):
+            return sorted((norm(v) for v in x), key=lambda v: json.dumps(v, sort_keys=True))
+        return x
+    j = resp.json
+    if j is None:
+        return (resp.status, _h(_mask(resp.raw)))
+    if resp.status >= 400:
+        return (resp.status, resp.err_code())
+    return (resp.status, _h(json.dumps(norm(j), sort_keys=True)))
 
 
 def is_consumer_write(req):
